@@ -29,7 +29,27 @@ def cases(draw):
     base = draw(gen.cases(PROFILE))
     prog = base["prog"]
     cut = draw(st.integers(2, max(2, len(prog))))
-    prefix, rest = prog[:cut], prog[cut:]
+    prefix, rest = list(prog[:cut]), prog[cut:]
+    if base["regions"] and draw(st.integers(0, 2)) == 0:
+        # live state with an owed recovery by construction: retract, move into a region, recover there (swallowed), perhaps leave
+        pr = printer.Printer()
+        for item in prefix:
+            if item[0] == "g":
+                pr.execute(item[1])
+        rnd = gen.Renderer({}, base["regions"], PROFILE, 0.508, False, False)
+        tx, ty = rnd.target("in", draw(st.integers(0, 3)), draw(st.integers(0, 100)), draw(st.integers(0, 100)))
+        fw = draw(st.booleans())
+        e = pr.e if pr.eabs else 0.0
+        prefix += [["g", "G90"], ["g", "G21"], ["g", "G10" if fw else "G1 E%s F1800" % gen.fmt(e - 1.27)],
+                   ["g", "G1 X%s Y%s" % (gen.fmt(tx), gen.fmt(ty))], ["g", "G11" if fw else "G1 E%s F1800" % gen.fmt(e)]]
+        if not base["config"].get("ext") and draw(st.booleans()):
+            base["config"]["ext"] = {"M106": "merge", "M117": draw(st.sampled_from(["first", "last", "exclude"])), "M204": "last"}
+        ext = sorted((base["config"].get("ext") or {}).keys())
+        if ext and draw(st.integers(0, 3)) > 0:
+            for code in draw(st.lists(st.sampled_from(ext), min_size=1, max_size=3)):
+                prefix.append(["g", code + (" live" if code == "M117" else " S%d" % draw(st.integers(0, 9)))])
+        elif draw(st.booleans()):
+            prefix.append(["g", "G1 X1 Y1"])
     eol = draw(st.sampled_from(["\n", "\n", "\r\n"]))
     mixed = draw(st.integers(0, 9)) == 0
     lines = []
